@@ -8,6 +8,7 @@ import (
 	"go/token"
 	"go/types"
 	"sort"
+	"strconv"
 	"strings"
 )
 
@@ -917,4 +918,252 @@ func ruleLexerStops(c *Ctx, r *Report, rule string) {
 	} else {
 		r.bad(rule, "run", "function not found", "")
 	}
+}
+
+// ---------------------------------------------------------------- sticky tokens
+
+// ruleStickyTable: which runes, directly after a literal or word, make the
+// lexer fail with "invalid syntax" instead of ending the token. The table
+// decides whether two adjacent tokens need a separator, so it is part of
+// what "layout" means: `"a""b"` and `"a" "b"` are the same token sequence.
+func ruleStickyTable(c *Ctx, r *Report, rule string) {
+	r.rule(rule, 5, "per lexer state that ends a literal or word: the set of following runes it refuses (a failure instead of the end of the token) — after a decimal integer: '\"' or a letter; after a hex integer: '.', '\"' or a letter; after a float: '\"' or a letter; after a string: a letter or digit (another '\"' is fine: adjacent strings need no separator); after a word: '\"'")
+	want := map[string]string{
+		"tINT":   `'"' '.' isAlpha`, // hex
+		"tINT#2": `'"' isAlpha`,     // decimal ('.', 'e', 'E' continue as a float)
+		"tFLOAT": `'"' isAlpha`,
+		"tSTR":   `isAlphaNum`,
+		"word":   `'"'`,
+	}
+	sf := c.stateFuncs()
+	got := map[string][]string{}
+	where := map[string]string{}
+	for _, name := range sortedKeys(sf) {
+		fd := sf[name]
+		// tokens the state emits
+		emits := map[string]bool{}
+		walkCalls(fd.Body, false, func(call *ast.CallExpr) {
+			if c.calleeName(call) == "lexer.emit" && len(call.Args) == 1 {
+				if id, ok := stripParens(call.Args[0]).(*ast.Ident); ok {
+					emits[id.Name] = true
+				} else {
+					emits["word"] = true
+				}
+			}
+		})
+		if len(emits) == 0 {
+			continue
+		}
+		kind := ""
+		switch {
+		case len(emits) == 1 && emits["tINT"]:
+			kind = "tINT"
+		case len(emits) == 1 && emits["tFLOAT"]:
+			kind = "tFLOAT"
+		case len(emits) == 1 && emits["tSTR"]:
+			kind = "tSTR"
+		case emits["tIDENT"]:
+			kind = "word"
+		default:
+			continue
+		}
+		// the refusing ifs: body ends in `return l.fail(...)`, condition is about the peeked rune
+		ast.Inspect(fd.Body, func(n ast.Node) bool {
+			ifs, ok := n.(*ast.IfStmt)
+			if !ok || len(ifs.Body.List) == 0 {
+				return true
+			}
+			rs, ok := ifs.Body.List[len(ifs.Body.List)-1].(*ast.ReturnStmt)
+			if !ok || len(rs.Results) != 1 {
+				return true
+			}
+			call, ok := rs.Results[0].(*ast.CallExpr)
+			if !ok || !c.isFailingHelper(c.calleeName(call), 0) {
+				return true
+			}
+			init, _ := ifs.Init.(*ast.AssignStmt)
+			classes, about := c.runeClasses(fd, ifs.Cond, init, nil, 0)
+			if !about {
+				return true
+			}
+			sort.Strings(classes)
+			got[kind] = append(got[kind], strings.Join(classes, " "))
+			where[kind] = c.pos(ifs.Pos())
+			return true
+		})
+	}
+	// two states emit tINT (decimal and hex): compare as a sorted pair
+	sort.Strings(got["tINT"])
+	flat := map[string]string{}
+	for k, v := range got {
+		for i, s := range v {
+			key := k
+			if i > 0 {
+				key = fmt.Sprintf("%s#%d", k, i+1)
+			}
+			flat[key] = s
+		}
+	}
+	for _, k := range sortedKeys(want) {
+		r.check(flat[k] == want[k], rule, "after/"+k, "refuses: "+want[k], fmt.Sprintf("after %s the lexer refuses [%s]; the language's token adjacency table says [%s] (a rune added here makes two adjacent tokens need a separator they did not need, a rune removed glues them)", k, flat[k], want[k]), where[strings.Split(k, "#")[0]])
+	}
+	for _, k := range sortedKeys(flat) {
+		if _, ok := want[k]; !ok {
+			r.bad(rule, "after/"+k, fmt.Sprintf("an additional refusal [%s] after %s", flat[k], k), where[strings.Split(k, "#")[0]])
+		}
+	}
+}
+
+// runeClasses renders a condition on the peeked rune as a set of classes:
+// quoted rune constants and predicate names. Helper methods that wrap the
+// test are followed, with their function-valued parameters substituted.
+// about reports whether the condition is about the peeked rune at all.
+func (c *Ctx) runeClasses(fd *ast.FuncDecl, cond ast.Expr, init *ast.AssignStmt, subst map[types.Object]ast.Expr, depth int) (classes []string, about bool) {
+	if depth > 3 {
+		return []string{"?deep"}, true
+	}
+	isPeek := func(e ast.Expr) bool {
+		e = stripParens(e)
+		if call, ok := e.(*ast.CallExpr); ok {
+			n := c.calleeName(call)
+			return n == "lexer.peek"
+		}
+		if id, ok := e.(*ast.Ident); ok {
+			obj := c.objOf(id)
+			if init != nil {
+				for i, l := range init.Lhs {
+					if c.isObj(l, obj) && i < len(init.Rhs) {
+						if call, ok := init.Rhs[i].(*ast.CallExpr); ok && c.calleeName(call) == "lexer.peek" {
+							return true
+						}
+					}
+				}
+			}
+			if def, n := c.singleDef(fd.Body, obj); n == 1 && def != nil {
+				if call, ok := def.(*ast.CallExpr); ok && c.calleeName(call) == "lexer.peek" {
+					return true
+				}
+			}
+		}
+		return false
+	}
+	for _, alt := range c.nnf(cond, true, init).dnf() {
+		if len(alt) != 1 {
+			// a conjunction: not a plain class
+			for _, a := range alt {
+				if be, ok := a.E.(*ast.BinaryExpr); ok && (isPeek(be.X) || isPeek(be.Y)) {
+					about = true
+				}
+			}
+			classes = append(classes, "?("+types.ExprString(cond)+")")
+			continue
+		}
+		a := alt[0]
+		switch e := a.E.(type) {
+		case *ast.BinaryExpr:
+			x, y := e.X, e.Y
+			if isPeek(y) {
+				x, y = y, x
+			}
+			if !isPeek(x) {
+				continue
+			}
+			about = true
+			k, isC := c.intConst(y)
+			if isC && ((e.Op == token.EQL && a.Pos) || (e.Op == token.NEQ && !a.Pos)) {
+				classes = append(classes, strconv.QuoteRune(rune(k)))
+			} else {
+				classes = append(classes, "?"+polarity(a))
+			}
+		case *ast.CallExpr:
+			fnExpr := e.Fun
+			if id, ok := stripParens(fnExpr).(*ast.Ident); ok && subst != nil {
+				if s, ok := subst[c.objOf(id)]; ok {
+					fnExpr = s
+				}
+			}
+			name := ""
+			if obj := c.objOf(stripParens(fnExpr)); obj != nil {
+				name = qname(obj)
+			}
+			if len(e.Args) == 1 && isPeek(e.Args[0]) {
+				about = true
+				if a.Pos && name != "" {
+					classes = append(classes, name)
+				} else {
+					classes = append(classes, "?"+polarity(a))
+				}
+				continue
+			}
+			// a helper of the lexer wrapping the test
+			fn, ok := c.callee(e).(*types.Func)
+			if !ok || fn.Pkg() == nil || fn.Pkg().Path() != bclPath {
+				continue
+			}
+			hd := c.funcDecls[fn]
+			if hd == nil || hd.Body == nil {
+				continue
+			}
+			sub := map[types.Object]ast.Expr{}
+			k := 0
+			for _, f := range hd.Type.Params.List {
+				for _, nm := range f.Names {
+					if k < len(e.Args) {
+						arg := e.Args[k]
+						if id, ok := stripParens(arg).(*ast.Ident); ok && subst != nil {
+							if s, ok := subst[c.objOf(id)]; ok {
+								arg = s
+							}
+						}
+						sub[c.objOf(nm)] = arg
+					}
+					k++
+				}
+			}
+			// the helper's condition for returning true
+			var hcond ast.Expr
+			var hinit *ast.AssignStmt
+			for _, s := range hd.Body.List {
+				switch s := s.(type) {
+				case *ast.IfStmt:
+					if len(s.Body.List) > 0 {
+						if rs, ok := s.Body.List[len(s.Body.List)-1].(*ast.ReturnStmt); ok && len(rs.Results) == 1 {
+							if id, ok := rs.Results[0].(*ast.Ident); ok && id.Name == "true" {
+								hcond = s.Cond
+								hinit, _ = s.Init.(*ast.AssignStmt)
+							}
+						}
+					}
+				case *ast.ReturnStmt:
+					if hcond == nil && len(s.Results) == 1 {
+						if id, ok := s.Results[0].(*ast.Ident); !ok || (id.Name != "false" && id.Name != "true") {
+							hcond = s.Results[0]
+						}
+					}
+				}
+			}
+			if hcond == nil {
+				continue
+			}
+			hc, habout := c.runeClasses(hd, hcond, hinit, sub, depth+1)
+			if habout {
+				about = true
+				if a.Pos {
+					classes = append(classes, hc...)
+				} else {
+					classes = append(classes, "?"+polarity(a))
+				}
+			}
+		}
+	}
+	// de-duplicate
+	seen := map[string]bool{}
+	var out []string
+	for _, s := range classes {
+		if !seen[s] {
+			seen[s] = true
+			out = append(out, s)
+		}
+	}
+	return out, about
 }
